@@ -67,7 +67,10 @@ use crate::{
     authority::StateReadExt as _,
     oracles::price_feed::oracle::{
         currency_pair_strategy::DefaultCurrencyPairStrategy,
-        state_ext::StateWriteExt,
+        state_ext::{
+            StateReadExt as _,
+            StateWriteExt,
+        },
     },
 };
 
@@ -608,6 +611,20 @@ pub(super) async fn apply_prices_from_vote_extensions<S: StateWriteExt>(
             },
             block_height: height,
         };
+        // The transactions of this block are executed before its prices are applied: a currency pair
+        // they removed has no state to update anymore.
+        if state
+            .get_currency_pair_state(price.currency_pair())
+            .await
+            .wrap_err("failed to get currency pair state")?
+            .is_none()
+        {
+            debug!(
+                "skipped price from vote extension for removed currency_pair=\"{}\"",
+                price.currency_pair(),
+            );
+            continue;
+        }
         state
             .put_price_for_currency_pair(price.currency_pair().clone(), quote_price)
             .await
